@@ -446,7 +446,42 @@ def r18_3(ctx, repo):
                   and isinstance(s.targets[0], ast.Subscript)
                   and U(s.targets[0].value) == MN]
         if not stores:
-            ctx.error(rule, '%s: renaming store not found' % construct)
+            # the whole list is rebuilt: `names = [<lookup> for n in names]`
+            rebinds = [s for s in ast.walk(fn) if isinstance(s, ast.Assign)
+                       and len(s.targets) == 1 and U(s.targets[0]) == MN
+                       and isinstance(s.value, (ast.ListComp, ast.Call))
+                       and any(isinstance(g, ast.comprehension)
+                               and MN in U(g.iter)
+                               for g in ast.walk(s.value))]
+            done = False
+            for rb in rebinds:
+                loop = None
+                cur = getattr(rb, '_parent', None)
+                while cur is not None and cur is not fn:
+                    if isinstance(cur, (ast.For, ast.While)):
+                        loop = cur
+                        break
+                    cur = getattr(cur, '_parent', None)
+                where = repo.loc(rb, cls, fn.name)
+                if loop is not None and isinstance(loop, ast.For) \
+                        and 'param_map' in U(loop.iter):
+                    done = True
+                    ctx.violation(
+                        rule, where, construct, 'sequential renaming',
+                        'the map is applied entry by entry to the list that '
+                        'is being renamed (`for ... in %s`, `%s`): a name '
+                        'produced by one entry is renamed again by a later '
+                        'entry, so maps whose values overlap with model '
+                        'names (a -> b, b -> c; swaps) select the wrong '
+                        'posterior columns' % (U(loop.iter)[:40],
+                                               norm_stmt(rb)[:50]))
+                elif loop is None and 'param_map' in U(rb.value):
+                    done = True
+                    ctx.ok(rule, where, construct,
+                           'every model name is looked up in the map once '
+                           '(simultaneous substitution)')
+            if not done:
+                ctx.error(rule, '%s: renaming store not found' % construct)
             continue
         st = stores[0]
         loop = None
